@@ -159,3 +159,34 @@ fn k_subject2_behavior__unsubscribe_releases_inner_observer() {
   assert!(l1.is(&[EV_N | 1]), "subject.unsubscribe: an unsubscribed observer received a later event");
   kani::cover!(true, "harness reaches its end");
 }
+
+// events signalled on a subject AFTER it has accepted a terminal are ignored: what a late subscriber is handed never changes again
+#[kani::proof]
+#[kani::unwind(3)]
+fn k_subject2_behavior__events_after_a_terminal_are_ignored() {
+  let sbj = subjects::BehaviorSubject::<u8>::new(1);
+  sbj.complete();
+  sbj.next(kani::any());
+  sbj.error(err(kani::any()));
+  let l = Log::new();
+  let _s = attach_o(&sbj.observable(), l);
+  sbj.next(kani::any());
+  assert!(l.is(&[EV_C]), "subject.behavior: a subscriber arriving after complete() must be handed the stored terminal only, whatever is signalled on the subject afterwards");
+  assert!(crate::subjects::subject::verif_k::held(&sbj.subject) == 0, "subject.drops: a BehaviorSubject that has completed holds an observer");
+  kani::cover!(true, "harness reaches its end");
+}
+
+#[kani::proof]
+#[kani::unwind(3)]
+fn k_subject2_replay__events_after_a_terminal_are_ignored() {
+  let a: u8 = kani::any();
+  let sbj = subjects::ReplaySubject::<u8>::new();
+  sbj.next(a);
+  sbj.complete();
+  sbj.next(kani::any());
+  sbj.error(err(kani::any()));
+  let l = Log::new();
+  let _s = attach_o(&sbj.observable(), l);
+  assert!(l.is(&[EV_N | a as u32, EV_C]), "subject.replay: a subscriber arriving after complete() must get the items emitted before it and the stored completion, whatever is signalled on the subject afterwards");
+  kani::cover!(true, "harness reaches its end");
+}
